@@ -7,10 +7,12 @@ package c06
 import (
 	"crypto/sha256"
 	"encoding/binary"
+	"errors"
 	"fmt"
 	"hash"
 	"hash/crc32"
 	"math/rand"
+	"net"
 	"runtime"
 	"sort"
 	"strings"
@@ -165,7 +167,9 @@ type scenario struct {
 	deflic string
 	lics   []string
 	cl     *oneway.OneWayTcpClient
-	col    *collector
+	col    *collector   // the first collector ("A"): the only one in most generators
+	cols   []*collector // all collectors of the scenario ("A", "B", "C"), each with its own port, listener and script
+	srv0   []int        // the collectors the client is configured with at the start, in list order
 	packs  map[*pack.TextPack]*packSpec
 	nondet bool
 	worker bool    // direct mode with the client's background worker running (as GetOneWayTcpClient starts it)
@@ -182,6 +186,8 @@ type scenario struct {
 	watch    map[string]chan struct{}
 
 	connOK    int32 // successful dials
+	connAt    []int   // collector of every successful dial, in dial order (under mu)
+	nAt       []int32 // atomic: successful dials per collector
 	connected int32 // 1 while the client holds a connection (hook view)
 	dialFails int   // failed dials so far
 	dials     int   // Connect calls that found no connection so far
@@ -279,6 +285,7 @@ func (sc *scenario) hook(name string, args ...interface{}) {
 		case "connect":
 			if args[1].(bool) {
 				sc.cfg.dial = "ok"
+				sc.dialedTo(args[0].(string))
 				atomic.AddInt32(&sc.connOK, 1)
 				atomic.StoreInt32(&sc.connected, 1)
 				atomic.StoreInt64(&sc.bytesOK, 0)
@@ -321,7 +328,9 @@ func (sc *scenario) hook(name string, args ...interface{}) {
 		g = sc.gates[fmt.Sprintf("built:%d", ps.id)]
 	case "connect":
 		ok := args[1].(bool)
+		addr := ""
 		if ok {
+			addr = sc.dialedTo(args[0].(string))
 			atomic.AddInt32(&sc.connOK, 1)
 			atomic.StoreInt32(&sc.connected, 1)
 			atomic.StoreInt64(&sc.bytesOK, 0)
@@ -336,7 +345,11 @@ func (sc *scenario) hook(name string, args ...interface{}) {
 			w = sc.watch["wconnect"]
 			delete(sc.watch, "wconnect")
 		}
-		sc.add(t, t, core.Ev{"ev": "Connect", "a": a, "ok": ok})
+		ce := core.Ev{"ev": "Connect", "a": a, "ok": ok}
+		if ok {
+			ce["addr"] = addr // the collector that answered
+		}
+		sc.add(t, t, ce)
 	case "sent":
 		err := args[0] != nil
 		if !err {
@@ -347,7 +360,7 @@ func (sc *scenario) hook(name string, args ...interface{}) {
 			// the drainer will close and re-dial: it is not idle again before that dial has returned
 			atomic.StoreInt32(&sc.connected, 0)
 		}
-		sc.add(t, t, core.Ev{"ev": "Sent", "a": sc.actor(), "err": err})
+		sc.add(t, t, core.Ev{"ev": "Sent", "a": sc.actor(), "err": err, "tmo": err && isTimeout(args[0])})
 		g = sc.gates[fmt.Sprintf("sent:%d", sc.curID)]
 	case "flushed":
 		err := args[1] != nil
@@ -357,7 +370,7 @@ func (sc *scenario) hook(name string, args ...interface{}) {
 			atomic.StoreInt32(&sc.connected, 0) // as above: the worker closes after a failed flush
 		}
 		sc.accum = 0
-		sc.add(t, t, core.Ev{"ev": "Flushed", "a": sc.actor(), "err": err})
+		sc.add(t, t, core.Ev{"ev": "Flushed", "a": sc.actor(), "err": err, "tmo": err && isTimeout(args[1])})
 		atomic.AddInt32(&sc.processed, 1)
 	case "close":
 		atomic.StoreInt32(&sc.connected, 0)
@@ -376,8 +389,9 @@ func (sc *scenario) hook(name string, args ...interface{}) {
 	}
 }
 
-// send performs one Send of the real client from sender goroutine `s`.
-func (sc *scenario) send(ps *packSpec) {
+// send performs one Send of the real client from sender goroutine `s`; reports whether the call returned an error
+// (queue modes: the pack was refused).
+func (sc *scenario) send(ps *packSpec) bool {
 	p := ps.build()
 	sc.mu.Lock()
 	sc.packs[p] = ps
@@ -407,21 +421,22 @@ func (sc *scenario) send(ps *packSpec) {
 		var err error
 		if msg := core.Guard(func() { err = call() }); msg != "" {
 			sc.point(core.Ev{"ev": "Panic", "s": sname(ps.sender), "id": ps.id, "msg": msg})
-			return
+			return true
 		}
 		sc.point(core.Ev{"ev": "Ret", "s": sname(ps.sender), "id": ps.id, "err": err != nil})
-		return
+		return err != nil
 	}
 	t0 := tick()
 	var err error
 	if msg := core.Guard(func() { err = call() }); msg != "" {
 		sc.point(core.Ev{"ev": "Panic", "s": sname(ps.sender), "id": ps.id, "msg": msg})
-		return
+		return true
 	}
 	t1 := tick()
 	sc.mu.Lock()
 	sc.add(t0, t1, ps.fields(core.Ev{"ev": "Enq", "s": sname(ps.sender), "ok": err == nil}))
 	sc.mu.Unlock()
+	return err != nil
 }
 
 // drain empties the queue with the client's own SendAndClear (mode "sac").
@@ -442,7 +457,7 @@ func (sc *scenario) settle() {
 		return
 	}
 	err := waitUntil(waitMax, func() bool {
-		cr := sc.col.conn(n - 1)
+		cr := sc.connRec(n - 1)
 		if cr == nil {
 			return false
 		}
@@ -456,24 +471,106 @@ func (sc *scenario) settle() {
 // quiesce waits until every connection the client established has been accepted.
 func (sc *scenario) quiesce() {
 	if err := waitUntil(waitMax, func() bool {
-		return atomic.LoadInt32(&sc.col.accepted) >= atomic.LoadInt32(&sc.connOK)
+		for i, co := range sc.cols {
+			if atomic.LoadInt32(&co.accepted) < atomic.LoadInt32(&sc.nAt[i]) {
+				return false
+			}
+		}
+		return true
 	}); err != nil {
 		sc.note("quiesce: an established connection was never accepted")
 	}
 }
 
-func (sc *scenario) listenerDown() {
+func (sc *scenario) listenerDown() { sc.listenerDownAt(0) }
+func (sc *scenario) listenerUp()   { sc.listenerUpAt(0) }
+
+// listenerDownAt / listenerUpAt: the listener of collector i goes away / returns (no dial in progress).
+func (sc *scenario) listenerDownAt(i int) {
 	sc.quiesce()
-	sc.col.down()
-	sc.point(core.Ev{"ev": "ListenerDown"})
+	sc.cols[i].down()
+	sc.point(core.Ev{"ev": "ListenerDown", "addr": sc.cols[i].name})
 }
 
-func (sc *scenario) listenerUp() {
-	if err := sc.col.up(); err != nil {
+func (sc *scenario) listenerUpAt(i int) {
+	if err := sc.cols[i].up(); err != nil {
 		sc.note("listen: " + err.Error())
 		return
 	}
-	sc.point(core.Ev{"ev": "ListenerUp"})
+	sc.point(core.Ev{"ev": "ListenerUp", "addr": sc.cols[i].name})
+}
+
+// colOf maps a host string of the client's server list to the collector that owns it (-1: nobody's).
+func (sc *scenario) colOf(host string) int {
+	for i, co := range sc.cols {
+		if co.addr() == host {
+			return i
+		}
+	}
+	return -1
+}
+
+// dialedTo books a successful dial (caller holds mu) and returns the name of the collector that answered.
+func (sc *scenario) dialedTo(host string) string {
+	i := sc.colOf(host)
+	if i < 0 {
+		sc.notes = append(sc.notes, "the client is connected to "+host+", which is not a collector of this scenario")
+		return "?"
+	}
+	sc.connAt = append(sc.connAt, i)
+	atomic.AddInt32(&sc.nAt[i], 1)
+	return sc.cols[i].name
+}
+
+// connRec is the collector's record of the k-th connection the client established (nil: not accepted yet).
+func (sc *scenario) connRec(k int) *connRec {
+	sc.mu.Lock()
+	if k < 0 || k >= len(sc.connAt) {
+		sc.mu.Unlock()
+		return nil
+	}
+	ci, j := sc.connAt[k], 0
+	for _, x := range sc.connAt[:k] {
+		if x == ci {
+			j++
+		}
+	}
+	sc.mu.Unlock()
+	return sc.cols[ci].conn(j)
+}
+
+// srvNames is the client's server list as collector names (a host that is nobody's collector: "?").
+func (sc *scenario) srvNames() []string {
+	out := []string{}
+	for _, h := range sc.cl.Servers {
+		if i := sc.colOf(h); i >= 0 {
+			out = append(out, sc.cols[i].name)
+		} else {
+			out = append(out, "?")
+		}
+	}
+	return out
+}
+
+func (sc *scenario) hosts(idx []int) []string {
+	out := []string{}
+	for _, i := range idx {
+		out = append(out, sc.cols[i].addr())
+	}
+	return out
+}
+
+// isTimeout: the error (as the client got it, or wrapped into its message) is an expired deadline.
+func isTimeout(e interface{}) bool {
+	err, ok := e.(error)
+	if !ok || err == nil {
+		return false
+	}
+	var ne net.Error
+	if errors.As(err, &ne) {
+		return ne.Timeout()
+	}
+	return strings.Contains(err.Error(), "i/o timeout")
 }
 
 func (sc *scenario) note(s string) {
@@ -561,6 +658,16 @@ var _ config.Config = (*mapConf)(nil)
 // client is pointed away from the collector without dialling anybody else, until `here` is restored by assignment.
 // qreq: the capacity asked for (apply: <= 0 leaves it alone).
 func (sc *scenario) reconf(via, lic string, qreq int, here bool) {
+	if here {
+		sc.reconfSrv(via, lic, qreq, sc.srv0)
+	} else {
+		sc.reconfSrv(via, lic, qreq, []int{})
+	}
+}
+
+// reconfSrv: as reconf, with the server list given as collector indices in list order (via "field": assigned if it
+// differs from the client's; via "apply": ApplyConfig resolves its own list, see reconf).
+func (sc *scenario) reconfSrv(via, lic string, qreq int, srvIdx []int) {
 	w := &cfgWin{dial: "none"}
 	sc.mu.Lock()
 	sc.cfg = w
@@ -576,11 +683,8 @@ func (sc *scenario) reconf(via, lic string, qreq int, here bool) {
 			if sc.cl.Queue.GetCapacity() != qreq {
 				sc.cl.Queue.SetCapacity(qreq)
 			}
-			isHere := len(sc.cl.Servers) == 1 && sc.cl.Servers[0] == sc.col.addr()
-			if here && !isHere {
-				sc.cl.Servers = []string{sc.col.addr()}
-			} else if !here && isHere {
-				sc.cl.Servers = []string{}
+			if want := sc.hosts(srvIdx); fmt.Sprint(want) != fmt.Sprint(sc.cl.Servers) {
+				sc.cl.Servers = want
 			}
 		case "apply":
 			sc.cl.ApplyConfig(&mapConf{map[string]string{"license": lic, "whatap.server.host": "/",
@@ -594,10 +698,7 @@ func (sc *scenario) reconf(via, lic string, qreq int, here bool) {
 		sc.point(core.Ev{"ev": "Panic", "s": "C", "msg": msg})
 		return
 	}
-	srv := "away"
-	if len(sc.cl.Servers) == 1 && sc.cl.Servers[0] == sc.col.addr() {
-		srv = "here"
-	}
+	srv := sc.srvNames()
 	sc.curLic = sc.cl.License
 	sc.curCap = sc.cl.Queue.GetCapacity()
 	sc.ncfg++
@@ -609,9 +710,16 @@ func (sc *scenario) reconf(via, lic string, qreq int, here bool) {
 // serversBack points the client at the collector again (assignment to the exported field).
 func (sc *scenario) serversBack() { sc.reconf("field", sc.curLic, sc.curCap, true) }
 
+type colConf struct {
+	cuts   map[int]cutSpec
+	stalls map[int]*stallSpec
+}
+
 type scConf struct {
 	mode   string
 	qcap   int
+	cols   []colConf // nil: one collector with `cuts`
+	srv    []int     // the client's server list (collector indices); nil: all collectors in order
 	cuts   map[int]cutSpec
 	nondet bool
 	worker bool   // direct mode: start the background worker too
@@ -620,22 +728,40 @@ type scConf struct {
 
 func newScenario(gen string, cas int, r *rand.Rand, cf scConf) (*scenario, error) {
 	installHook()
-	col, err := newCollector(cf.cuts)
-	if err != nil {
-		return nil, err
+	ccs := cf.cols
+	if ccs == nil {
+		ccs = []colConf{{cuts: cf.cuts}}
 	}
-	sc := &scenario{gen: gen, cas: cas, mode: cf.mode, qcap: cf.qcap, col: col, nondet: cf.nondet, worker: cf.worker,
+	sc := &scenario{gen: gen, cas: cas, mode: cf.mode, qcap: cf.qcap, nondet: cf.nondet, worker: cf.worker,
 		packs: map[*pack.TextPack]*packSpec{}, gates: map[string]*gate{}, watch: map[string]chan struct{}{}}
-	col.dialed = func(i int) bool { return int(atomic.LoadInt32(&sc.connOK)) > i }
-	if err := col.up(); err != nil {
-		col.release()
-		return nil, err
+	sc.nAt = make([]int32, len(ccs))
+	for i, cc := range ccs {
+		col, err := newCollector(cc.cuts)
+		if err == nil {
+			col.name = string(rune('A' + i))
+			col.stalls = cc.stalls
+			i := i
+			col.dialed = func(k int) bool { return int(atomic.LoadInt32(&sc.nAt[i])) > k }
+			sc.cols = append(sc.cols, col)
+			err = col.up()
+		}
+		if err != nil {
+			for _, c := range sc.cols {
+				c.release()
+			}
+			return nil, err
+		}
+	}
+	sc.col = sc.cols[0]
+	sc.srv0 = cf.srv
+	if sc.srv0 == nil {
+		sc.srv0 = seq(len(sc.cols))
 	}
 	sfx := fmt.Sprintf("%04x", r.Intn(1<<16))
 	sc.deflic = "x41f2-lic-default-" + sfx
 	sc.lics = []string{sc.deflic, "x9a-lic-B-" + sfx, "lic-C-" + sfx + "-한", "x41f2-lic-D-" + sfx, "lic-E-" + sfx}
 	sc.curLic = sc.deflic
-	opts := []oneway.OneWayTcpClientOption{oneway.WithServers([]string{col.addr()}), oneway.WithLicense(sc.deflic),
+	opts := []oneway.OneWayTcpClientOption{oneway.WithServers(sc.hosts(sc.srv0)), oneway.WithLicense(sc.deflic),
 		oneway.WithPcode(int64(1000 + r.Intn(1000)))}
 	if cf.mode != "direct" {
 		opts = append(opts, oneway.WithUseQueue(), oneway.WithQueueSize(int32(cf.qcap)))
@@ -697,7 +823,7 @@ func (sc *scenario) finish(c *core.Ctx, t *core.Trace, emit *sync.Mutex) {
 		// a healthy last connection is ended from the collector's side once it has read
 		// everything the client was told it flushed
 		sc.settle()
-		for _, cr := range sc.col.all() {
+		for _, cr := range sc.allConns() {
 			if !isDone(cr) {
 				cr.finish()
 			}
@@ -708,22 +834,41 @@ func (sc *scenario) finish(c *core.Ctx, t *core.Trace, emit *sync.Mutex) {
 		sc.mu.Unlock()
 		sc.cl.Close()
 	}
-	sc.col.down()
+	for _, co := range sc.cols {
+		co.down()
+		co.resumeAll() // a collector that is still stalled reads on (to the end of the stream) now
+	}
 	timedOut := false
-	for _, cr := range sc.col.all() {
+	for _, cr := range sc.allConns() {
 		select {
 		case <-cr.done:
 		case <-time.After(waitMax / 3):
 			timedOut = true
 		}
 	}
-	sc.col.release()
+	for _, co := range sc.cols {
+		co.release()
+	}
 	registry.Delete(sc.cl)
 
+	// the collectors' records in the order of the client's successful dials (the k-th dial that collector X answered
+	// is the k-th connection X accepted: the client dials one server at a time); a connection a collector accepted
+	// without a successful dial of the client comes last and has no explanation
 	conns := []core.Ev{}
 	if !timedOut {
-		for _, cr := range sc.col.all() {
-			conns = append(conns, cr.ev())
+		used := make([]int, len(sc.cols))
+		for _, ci := range sc.connAt {
+			if cr := sc.cols[ci].conn(used[ci]); cr != nil {
+				conns = append(conns, cr.ev())
+			}
+			used[ci]++
+		}
+		for i, co := range sc.cols {
+			for _, cr := range co.all() {
+				if cr.idx >= used[i] {
+					conns = append(conns, cr.ev())
+				}
+			}
 		}
 	}
 	lics := core.Ev{}
@@ -746,7 +891,7 @@ func (sc *scenario) finish(c *core.Ctx, t *core.Trace, emit *sync.Mutex) {
 		return
 	}
 	t.Reset(sc.gen, sc.cas, core.Ev{"mode": sc.mode, "queue": sc.mode != "direct", "qcap": sc.qcap, "deflic": sc.deflic,
-		"lics": lics, "proph": conns, "nondet": sc.nondet})
+		"lics": lics, "srv": sc.srvStart(), "proph": conns, "nondet": sc.nondet})
 	for _, e := range sc.evs {
 		t.Emit(e.ev)
 	}
@@ -810,7 +955,7 @@ var voids []string
 
 // void writes an empty history (caller holds the emit lock) and reports it in meta.extra.
 func void(c *core.Ctx, t *core.Trace, gen string, cas int, why []string) {
-	t.Reset(gen, cas, core.Ev{"mode": "void", "queue": false, "qcap": 0, "deflic": "-", "lics": core.Ev{}, "proph": []core.Ev{},
+	t.Reset(gen, cas, core.Ev{"mode": "void", "queue": false, "qcap": 0, "deflic": "-", "lics": core.Ev{}, "srv": []string{}, "proph": []core.Ev{},
 		"nondet": true, "void": why})
 	voidMu.Lock()
 	voids = append(voids, fmt.Sprintf("%s/%d: %v", gen, cas, why))
@@ -819,3 +964,21 @@ func void(c *core.Ctx, t *core.Trace, gen string, cas int, why []string) {
 }
 
 func startWorker(cl *oneway.OneWayTcpClient) { oneway.StartWorkerForVerif(cl) }
+
+// allConns: every connection any collector of the scenario accepted.
+func (sc *scenario) allConns() []*connRec {
+	var out []*connRec
+	for _, co := range sc.cols {
+		out = append(out, co.all()...)
+	}
+	return out
+}
+
+// srvStart: the names of the collectors the client was configured with at the start.
+func (sc *scenario) srvStart() []string {
+	out := []string{}
+	for _, i := range sc.srv0 {
+		out = append(out, sc.cols[i].name)
+	}
+	return out
+}
